@@ -103,6 +103,8 @@ where
             short_channel_id = %req.htlc.short_channel_id,
             htlc_id = req.htlc.id))]
     pub async fn handle_htlc(&self, req: &HtlcAcceptedRequest) -> HtlcAcceptedResponse {
+        #[cfg(breez_trampoline_verif)]
+        crate::verif::seam::observe_table(&self.payments);
         trace!("got htlc");
         let (sender, receiver) = oneshot::channel();
         let trampoline = match self.check_htlc(req) {
